@@ -459,6 +459,20 @@ CHECKS["C07"]["drivers"].append({"module": "harness.drv_gemap", "trace": "Trace_
 
 # advisory: lineage of the individuals evaluated by RandomSearch / OnePlusOne / HC (what the algorithms are documented to do)
 CHECKS["C12"]["drivers"].append({"module": "harness.drv_lineage", "trace": "Trace_Lineage", "advisory": True})
+# model of the local-search loops at the grain of one individual (GELocalSearch): C14's window / first-check / termination
+# clauses and C12's monotone best hold for the documented loops AND for the loops as coded; the documented lineage
+# (every newcomer is a mutant of the current best) holds for the design only - the as-coded variants must violate it
+# (advisory observation, see Trace_Lineage)
+CHECKS["C14"]["models"] = CHECKS["C14"]["models"] + [
+    {"module": "MC_LocalSearch", "cfg": "MC_LocalSearch_OPO_design.cfg", "workers": 2},
+    {"module": "MC_LocalSearch", "cfg": "MC_LocalSearch_HC_design.cfg", "workers": 2},
+    {"module": "MC_LocalSearch", "cfg": "MC_LocalSearch_OPO_ascoded_c14.cfg", "workers": 2},
+    {"module": "MC_LocalSearch", "cfg": "MC_LocalSearch_HC_ascoded_c14.cfg", "workers": 2},
+    {"module": "MC_LocalSearch", "cfg": "MC_LocalSearch_OPO_ascoded.cfg", "workers": 2,
+     "expect_violation": "Invariant OffspringAreMutants is violated"},
+    {"module": "MC_LocalSearch", "cfg": "MC_LocalSearch_HC_ascoded.cfg", "workers": 2,
+     "expect_violation": "Invariant ParentIsBest is violated"},
+]
 # advisory: wrap_depth_minimization keeps the order of the problem it wraps and breaks ties towards shallower programs
 CHECKS["C13"]["drivers"].append({"module": "harness.drv_wrap", "trace": "Trace_Wrap", "advisory": True})
 # model of the pool tournaments draw from: the documented design keeps it intact, the code as it stands does not (advisory
